@@ -51,6 +51,7 @@ def cases(draw, name, tier, many=False):
             s["fl"] = draw(st.sampled_from(["agen", "agen", "aclass", "aplain", "aclass_noclose", "agenlike",
                                              "aproxy", "areiter", "alateclose"]))
             s["eqsrc"] = draw(st.integers(0, 3)) == 0
+            s["falsy"] = draw(st.integers(0, 3)) == 0
             s["csusp"] = draw(st.booleans())
             s["cret"] = draw(st.sampled_from([None, None, True, "closed"]))
     if name == "chain_from_iterable":
